@@ -141,7 +141,8 @@ def declare(E):
                       2: dict(inv=[], vars={})},
                returns="none",
                raises={"IncompatiblePeer": INCOMPATIBLE, "MessageOrderError": "self.agreed_on_strict_kex and not self.initial_kex_done and m.seqno != 0",
-                       "UnicodeDecodeError": "True"})
+                       # name-lists that are not UTF-8 are a protocol error like any other
+                       "SSHException": "True"})
 
 
 def declare_send(E):
